@@ -73,9 +73,12 @@ Running == mem # 0 /\ ld.pc = "idle"
 (***************************************************************************)
 (* The application changes its state                                       *)
 (***************************************************************************)
-Mutate ==
+\* the new content may be one the store had before (generations identify CONTENT: two flushes
+\* of equal content write byte-identical files)
+MutateTo(g) ==
   /\ Running /\ gen < MaxGen
-  /\ gen' = gen + 1 /\ mem' = gen + 1
+  /\ gen' = gen + 1
+  /\ mem' = g
   /\ step' = "mutate"
   /\ UNCHANGED <<toggle, slot, tmp, fl, ld, completed, inprog, loaded, crashes>>
 
@@ -235,25 +238,28 @@ LoadV2 ==
   /\ UNCHANGED <<slot, tmp, mem, gen, fl, completed, inprog, loaded, crashes>>
 
 \* the server is up with the recovered state (a new in-memory generation)
-LoadDone ==
+LoadDoneTo(g) ==
   /\ ld.pc = "done"
   /\ loaded' = [store |-> ld.st, gglw |-> ld.gg]
   /\ ld' = Idle
-  /\ gen' = gen + 1 /\ mem' = gen + 1
+  /\ gen' = gen + 1
+  /\ mem' = g                            \* registrations applied, new sessions: some content
   \* what a start has recovered is from now on the snapshot a later crash must
   \* at least give back (it is what "the last completed flush" means to a user)
   /\ completed' = ld.st /\ inprog' = 0
   /\ step' = "loaded"
   /\ UNCHANGED <<toggle, slot, tmp, fl, crashes>>
 
-Next ==
-  \/ Mutate \/ FlushStart \/ FlushCreate \/ FlushWrite \/ FlushRename \/ FlushCommit \/ FlushEnd
+NextBase ==
+  \/ FlushStart \/ FlushCreate \/ FlushWrite \/ FlushRename \/ FlushCommit \/ FlushEnd
   \/ Crash \/ Restart \/ LoadStore1 \/ LoadFlip2 \/ LoadStore2 \/ LoadCommit2 \/ LoadGglw1 \/ LoadFlipG
-  \/ LoadGglw2 \/ LoadV2 \/ LoadDone
+  \/ LoadGglw2 \/ LoadV2
+Next == NextBase \/ \E g \in 1..MaxGen : MutateTo(g) \/ LoadDoneTo(g)
 
 Spec == Init /\ [][Next]_vars
 
 Bound == gen <= MaxGen + MaxCrashes + 1
+MemOK == mem \in 0..MaxGen
 
 (***************************************************************************)
 (* C10: the next start recovers exactly the last completed flush or the    *)
